@@ -1034,3 +1034,15 @@ package lnwallet
 //@ // ---- lease channel that WE opened it demands the lease expiry - every justice variant containing to_local is invalid until then)
 //@ func NewBreachRetribution
 //@   site call CommitScriptToRemote as our-output-spendable-without-lock-time: assert !(chanState.ChanType.HasLeaseExpiration() && !arg(1))
+//@
+//@ // ---- the commit fee RECORDED in the two initial commitments is the fee of the commitment transaction alone (rate x weight). The anchors
+//@ // ---- are charged to the opener on top of it in the balances, but are not part of the recorded fee: a cooperative close in the funding
+//@ // ---- state credits recorded fee + 2 x 330 sat back to the opener, so a recorded fee that already contains the anchors is credited twice
+//@ // ---- (outputs + fee above capacity)
+//@ func NewChannelReservation
+//@   props C17 C01
+//@   loop * havoc
+//@   site call FeeForWeight as rate-domain: domain 0 <= arg(0) && arg(0) <= 1<<40
+//@   site store ChannelCommitment.CommitFee: assert value == ret(FeeForWeight)
+//@   site call NewMSatFromSatoshis nth 2 as fee-msat: assert arg(0) == ret(FeeForWeight)
+
